@@ -101,6 +101,11 @@ def sweep_rules(ctx: Ctx, py: PyProgram) -> None:
                 groups[("C01.1/consumer-agree", c.opcode, f"info accepts but lift raises {c.lift_exc}")].append(c)
             if not c.enc_identity:
                 groups[("C01.1/consumer-agree", c.opcode, f"info accepts but the text round trip fails: {c.enc_detail}")].append(c)
+        # the text hook turns every rendered element into a Binary Ninja token through the Token interface: anything that is not a
+        # token object (a bare string, a number) makes get_instruction_text raise where info and IL accept
+        junk = [t for k, t in c.tokens if k == "?"]
+        if junk and not c.render_exc:
+            groups[("C01.1/consumer-agree", c.opcode, f"render yields non-token elements {junk[:3]}: the text hook fails on them")].append(c)
         if not (1 <= c.n <= MAXLEN - 1):
             groups[("C01.1/length-bound", c.opcode, f"consumed {c.n} bytes")].append(c)
         if c.pre is None and c.n > 1 and c.trunc_exc != "BufferTooShortErrorError":
@@ -223,6 +228,41 @@ def consumers(ctx: Ctx, py: PyProgram) -> None:
         ctx.violation("C01.4/handler-agree", key_of(isa.EMU_PY, "Emulator.decode_instruction", f"decode() handlers {sorted(handled)}"),
                       f"the emulator fetch lets {missing} from decode() escape, while the Binary Ninja hooks turn them into 'not an instruction' "
                       "(e.g. bytes 56 04 00: hooks return None, Emulator.decode_instruction raises AssertionError)", f"{isa.EMU_PY}:{fn.lineno}")
+    # the window the emulator decodes is the bytes at address, address+1, ...: the fetch closure reads memory at `address + offset`,
+    # unmasked (the Binary Ninja hooks are handed consecutive bytes; a fetch that wraps or masks decodes other bytes near a boundary)
+    from .. import linform
+    inner = [f_ for f_ in ast.walk(fn) if isinstance(f_, ast.FunctionDef) and f_ is not fn and any(isinstance(c, ast.Call) and isinstance(c.func, ast.Attribute) and c.func.attr == "read_byte" for c in ast.walk(f_))]
+    ctx.need(len(inner) >= 1, "Emulator.decode_instruction: fetch closure not found")
+    for f_ in inner:
+        off = [a.arg for a in f_.args.args]
+        ctx.need(len(off) == 1, "fetch closure takes one offset")
+        binds: dict[str, list] = {}
+        for a in ast.walk(f_):
+            if isinstance(a, ast.Assign):
+                for t in a.targets:
+                    if isinstance(t, ast.Name):
+                        binds.setdefault(t.id, []).append(a.value)
+            if isinstance(a, ast.AugAssign) and isinstance(a.target, ast.Name):
+                binds.setdefault(a.target.id, []).append(a)
+        for c in ast.walk(f_):
+            if isinstance(c, ast.Call) and isinstance(c.func, ast.Attribute) and c.func.attr in ("read_byte",) or (isinstance(c, ast.Call) and isinstance(c.func, ast.Name) and c.func.id == "read_fn"):
+                if not c.args:
+                    continue
+                n += 1
+                a0 = c.args[0]
+                ok = False
+                if isinstance(a0, ast.Name) and len(binds.get(a0.id, [])) == 1 and isinstance(binds[a0.id][0], ast.AST) and not isinstance(binds[a0.id][0], ast.AugAssign):
+                    a0 = binds[a0.id][0]
+                try:
+                    forms = linform.alternatives(a0, {})
+                    outer = [a_.arg for a_ in fn.args.args if a_.arg != "self"][0]
+                    ok = forms == {(0, frozenset({(outer, 1), (off[0], 1)}))}
+                except linform.NotLinear:
+                    ok = False
+                if not ok:
+                    ctx.violation("C01.4/fetch-window", key_of(isa.EMU_PY, "Emulator.decode_instruction", "fetch address is not address + offset"),
+                                  f"the emulator fetch reads memory at `{unparse(c.args[0])}` (bound by {[unparse(b)[:50] for b in binds.get(unparse(c.args[0]), [])]}), not at address + offset: near a boundary the emulator decodes "
+                                  "different bytes than the ones the Binary Ninja hooks are given, so the four consumers disagree on length and mnemonic", f"{isa.EMU_PY}:{c.lineno}")
     # fallback when decode returns None
     n += 1
     holders = {t.id for a in ast.walk(fn) if isinstance(a, ast.Assign) and any(c is calls[0] for c in ast.walk(a.value)) for t in a.targets if isinstance(t, ast.Name)}
